@@ -528,7 +528,7 @@ func main() {
 	out := flag.String("out", "", "cases directory")
 	seed := flag.Uint64("seed", 1, "seed")
 	tier := flag.String("tier", "quick", "tier")
-	stage := flag.String("stage", "groups", "groups|split")
+	stage := flag.String("stage", "groups", "groups|split|e2e")
 	_ = flag.String("replay", "", "unused: cases are regenerated from the seed")
 	flag.Parse()
 	var err error
@@ -537,6 +537,8 @@ func main() {
 		err = groupsStage(*out, *seed, *tier)
 	case "split":
 		err = splitStage(*out, *seed, *tier)
+	case "e2e":
+		err = e2eStage(*out, *seed, *tier)
 	default:
 		err = fmt.Errorf("unknown stage %q", *stage)
 	}
